@@ -18,16 +18,17 @@ import (
 
 type e2eObs struct {
 	Clock instant
-	Route int
+	Var   int // variant index
+	Route int // header-name scheme (index into outRoutes)
 	Got   []seen
 }
 
-func e2eRequest(route int, ci int) (*http.Request, error) {
-	body := fmt.Sprintf("%s|%d|\x00payload", outRoutes[route].Route, ci)
+func e2eRequest(vi, route int, ci int) (*http.Request, error) {
+	body := fmt.Sprintf("%s|%d|\x00payload", routeOf(vi, route), ci)
 	// the inbound request already carries headers with the signing names: they are forwarded with the
 	// message and must not survive as the signature of the push request
 	raw := fmt.Sprintf("POST %s HTTP/1.1\r\nHost: hooks.test\r\nContent-Type: text/plain\r\n%s: 00bogus\r\n%s: 12345\r\nContent-Length: %d\r\n\r\n%s",
-		outRoutes[route].Route, outRoutes[route].Expected.Sig, outRoutes[route].Expected.Ts, len(body), body)
+		routeOf(vi, route), outRoutes[route].Expected.Sig, outRoutes[route].Expected.Ts, len(body), body)
 	req, err := http.ReadRequest(bufio.NewReader(strings.NewReader(raw)))
 	if err != nil {
 		return nil, err
@@ -39,9 +40,9 @@ func e2eRequest(route int, ci int) (*http.Request, error) {
 // runE2E: one bubble per configuration; at every clock instant (ascending) one
 // message per route is accepted by the ingress and the dispatcher pushes it to
 // the 8 targets of that route at that very (virtual) instant.
-func runE2E(t *testing.T, spec outSpec, worker int, clocks []instant) (obs []e2eObs, infra error) {
+func runE2E(t *testing.T, windows []win, worker int, vars []variant, clocks []instant) (obs []e2eObs, infra error) {
 	synctest.Test(t, func(t *testing.T) {
-		env, err := bootOut(spec, worker, false)
+		env, err := bootOut(windows, -1, worker, vars, false)
 		if err != nil {
 			infra = fmt.Errorf("boot: %v", err)
 			return
@@ -62,27 +63,29 @@ func runE2E(t *testing.T, spec outSpec, worker int, clocks []instant) (obs []e2e
 				infra = fmt.Errorf("%d pushes between the instants (retry configured 1h)", len(stale))
 				return
 			}
-			for r := range outRoutes {
-				req, err := e2eRequest(r, ci)
-				if err != nil {
-					infra = err
-					return
-				}
-				rec := httptest.NewRecorder()
-				env.app.Ingress.ServeHTTP(rec, req)
-				if rec.Code != http.StatusAccepted {
-					infra = fmt.Errorf("ingress answered %d for %s", rec.Code, outRoutes[r].Route)
-					return
-				}
-				synctest.Wait() // dispatcher has pushed to all targets and is idle again
-				got := env.rec.take()
-				for _, g := range got {
-					if !g.At.Equal(clk.At) {
-						infra = fmt.Errorf("push observed at %s, clock %s", g.At, clk.At)
+			for vi := range vars {
+				for r := range outRoutes {
+					req, err := e2eRequest(vi, r, ci)
+					if err != nil {
+						infra = err
 						return
 					}
+					rec := httptest.NewRecorder()
+					env.app.Ingress.ServeHTTP(rec, req)
+					if rec.Code != http.StatusAccepted {
+						infra = fmt.Errorf("ingress answered %d for %s", rec.Code, routeOf(vi, r))
+						return
+					}
+					synctest.Wait() // dispatcher has pushed to all targets and is idle again
+					got := env.rec.take()
+					for _, g := range got {
+						if !g.At.Equal(clk.At) {
+							infra = fmt.Errorf("push observed at %s, clock %s", g.At, clk.At)
+							return
+						}
+					}
+					obs = append(obs, e2eObs{Clock: clk, Var: vi, Route: r, Got: got})
 				}
-				obs = append(obs, e2eObs{Clock: clk, Route: r, Got: got})
 			}
 		}
 	})
@@ -98,13 +101,13 @@ func judgeE2E(spec outSpec, o e2eObs) (pick int, tie string, fl *failure) {
 		return judge(spec, o.Clock.At, names, o.Got) // any request is a failure
 	}
 	if len(o.Got) != len(urlPaths) {
-		return pickFailed, noTie, &failure{"e2e:push-count", fmt.Sprintf("%d push requests for %d targets of %s; %s clock=%s", len(o.Got), len(urlPaths), outRoutes[o.Route].Route, spec, o.Clock.Label)}
+		return pickFailed, noTie, &failure{"e2e:push-count", fmt.Sprintf("%d push requests for %d targets of %s; %s clock=%s", len(o.Got), len(urlPaths), routeOf(o.Var, o.Route), spec, o.Clock.Label)}
 	}
-	want := fmt.Sprintf("%s|", outRoutes[o.Route].Route)
+	want := fmt.Sprintf("%s|", routeOf(o.Var, o.Route))
 	pick = pickFailed
 	for _, g := range o.Got {
 		if !strings.HasPrefix(string(g.Body), want) {
-			return pickFailed, noTie, &failure{"e2e:foreign-message", fmt.Sprintf("body %q on route %s", g.Body, outRoutes[o.Route].Route)}
+			return pickFailed, noTie, &failure{"e2e:foreign-message", fmt.Sprintf("body %q on route %s", g.Body, routeOf(o.Var, o.Route))}
 		}
 		p, tdir, f := judge(spec, o.Clock.At, names, []seen{g})
 		if f != nil {
